@@ -71,6 +71,10 @@ def to32(x):
 def coq_op(o):
     if o[0] == "f":
         return f"EFrame {F.zlist(o[1:])}"
+    if o[0] == "x":
+        return "EPull"
+    if o[0] == "p":
+        return f"EParts {F.zlist(o[1:])}"
     return f"{'EAttack' if o[0] == 'a' else 'ERelease'} {F.zlit(o[1])}"
 
 
@@ -87,6 +91,20 @@ def build(item, ops=None):
         it["coq"] = (f"ECase {it['fmt']} {it['nch']} {it['det']} {it['win']} {it['attack']} {it['release']} {it['mode']} "
                      + "[" + "; ".join(coq_op(o) for o in it["ops"]) + "]")
     return it
+
+
+def valid_ops(it):
+    """`x` only in adaptor modes after the last `f`; `p` only as the last op"""
+    if it["kind"] != "E":
+        return True
+    ops = it["ops"]
+    last_f = max([i for i, o in enumerate(ops) if o[0] == "f"], default=-1)
+    for i, o in enumerate(ops):
+        if o[0] == "x" and (it["mode"] == 0 or i < last_f):
+            return False
+        if o[0] == "p" and i != len(ops) - 1:
+            return False
+    return True
 
 
 def int_values(f, rng, nrand):
@@ -197,7 +215,7 @@ def gen_env(rng, tier):
         det = (k // 4) % 4 if k % 7 else r.below(4)
         nch = [1, 2, 3, 0][(k // 16) % 4] if k % 3 else r.choice([0, 1, 2, 3])
         win = r.choice([1, 2, 3, 4, 5, 8]) if det == 3 else 0
-        mode = r.below(2)
+        mode = r.below(3)
         nframes = r.choice([nfr, nfr, nfr // 2, 12, 5])
         frames = gen_history(r, fmt, max(1, nch), nframes)
         ops = [["f"] + fr for fr in frames]
@@ -205,6 +223,10 @@ def gen_env(rng, tier):
         for _ in range(nset):
             pos = r.range(1, len(ops))
             ops.insert(pos, [r.choice(["a", "r"]), pick_time(r)])
+        if mode and r.chance(1, 3):
+            ops += [["x"]] * r.range(1, 6)
+        if r.chance(1, 4):
+            ops.append(["p"] + gen_history(r, fmt, max(1, nch), 1)[0])
         items.append(build(dict(kind="E", fmt=fmt, nch=nch, det=det, win=win, attack=pick_time(r), release=pick_time(r),
                                 mode=mode, ops=ops)))
     # the known class K2: integer format, some channel at the minimum amplitude
@@ -218,6 +240,43 @@ def gen_env(rng, tier):
         frames = gen_history(r, fmt, nch, r.choice([6, 12]), k2=True)
         items.append(build(dict(kind="E", fmt=fmt, nch=nch, det=det, win=3 if det == 3 else 0, attack=pick_time(r),
                                 release=pick_time(r), mode=r.below(2), ops=[["f"] + fr for fr in frames])))
+    return items
+
+
+def gen_exhaust(rng, tier):
+    """adaptor over a FINITE source (from_iter / from_interleaved_samples_iter) pulled well past its end:
+    non-zero gains, a non-zero envelope when the source ends, is_exhausted observed at every pull, then
+    into_parts() and one more frame through the returned detector; float and integer frames, four detectors"""
+    items = []
+    reps = 2 if tier == "quick" else 12
+    k = 0
+    for rep_i in range(reps):
+        for fmt in (12, 13, 1, 6, 0, 7):
+            for det in range(4):
+                r = rng.fork(f"exh{rep_i}_{fmt}_{det}")
+                k += 1
+                nch = [1, 2, 3, 0][k % 4]
+                ne = max(1, nch)
+                mode = 1 + (k + rep_i) % 2
+                frames = gen_history(r, fmt, ne, r.range(3, 14))
+                # end loud (on the side the rectifier keeps) so that the envelope is far from equilibrium
+                if fmt < 12:
+                    eq, hi, lo = equil(fmt), imax(fmt), imin(fmt) + 1
+                    loud = [(lo + r.below((eq - lo) // 2 + 1)) if det == 2 else (hi - r.below((hi - eq) // 2 + 1)) for _ in range(ne)]
+                else:
+                    enc = f32b if fmt == 12 else f64b
+                    loud = [enc((-1.0 if det == 2 else 1.0) * (0.5 + r.below(500) / 1000.0)) for _ in range(ne)]
+                frames += [list(loud)] * r.range(2, 5)
+                slow = [f32b(to32(x)) for x in (4.0, 10.0, 25.0, 100.0, 1e4)]
+                attack, release = r.choice(slow), r.choice(slow)
+                ops = [["f"] + fr for fr in frames]
+                tail = [["x"]] * r.range(8, 24)
+                if r.chance(1, 2):
+                    tail.insert(r.range(1, len(tail) - 1), [r.choice(["a", "r"]), r.choice(slow + [f32b(0.0)])])
+                ops += tail
+                ops.append(["p"] + gen_history(r, fmt, ne, 1)[0])
+                items.append(build(dict(kind="E", fmt=fmt, nch=nch, det=det, win=r.choice([1, 2, 4]) if det == 3 else 0,
+                                        attack=attack, release=release, mode=mode, ops=ops)))
     return items
 
 
@@ -312,7 +371,7 @@ def env_verdict(it, obs, stats):
     else:
         eq_out = 0 if (it["det"] == 0 or is_signed(it["fmt"])) else equil(it["fmt"])
         last = [eq_out] * nch
-    rising = falling = False
+    rising = falling = past_end = False
     k2 = None
     oi = 1
     for o in it["ops"]:
@@ -338,6 +397,21 @@ def env_verdict(it, obs, stats):
         if ob[0] == 8:
             k2 = {"frame": o[1:], "code": ob[1], "index": oi - 1}
             break
+        adapt = it["mode"] != 0
+        if o[0] == "p":
+            # into_parts(): gains and envelope state intact, the source reports exhaustion
+            if ob[0] != 25 or len(ob) != 4 + 2 * nch or b2f32(ob[1]) != ga or b2f32(ob[2]) != gr or ob[3] != (1 if adapt else 0):
+                probs.append(("into_parts_observation", ob, ga, gr))
+                break
+            ob = [20] + ob[4:]
+        elif adapt:
+            # is_exhausted() before the pull: false while source frames remain, true afterwards
+            if ob[0] != 24 or len(ob) != 2 + 2 * nch or ob[1] != (1 if o[0] == "x" else 0):
+                probs.append(("exhaustion_flag", o[0], ob))
+                break
+            ob = [20] + ob[2:]
+            if o[0] == "x":
+                past_end = True
         if ob[0] != 20 or len(ob) != 1 + 2 * nch:
             probs.append(("frame_observation", ob))
             break
@@ -374,7 +448,7 @@ def env_verdict(it, obs, stats):
             if g == 0.0:
                 stats["zero_gain_steps"] = stats.get("zero_gain_steps", 0) + 1
         last = [fval(ff, x) for x in env] if isf else list(env)
-    return probs, k2, {"rising": rising, "falling": falling}
+    return probs, k2, {"rising": rising, "falling": falling, "past_end": past_end}
 
 
 def k2_class(it, k2):
@@ -383,6 +457,49 @@ def k2_class(it, k2):
 
 
 # ---------------------------------------------------------------------------
+
+
+def has_panic(it, line):
+    """a dev-profile overflow panic (K2 envelope inputs, full wave of the minimum amplitude) wraps in release"""
+    return (";" + line).find(";8 ") >= 0
+
+
+def nostd_phase(rep, items, outl):
+    """The same cases through the crates built WITHOUT their std feature.  Excluded: the RMS detector (no_std
+    sqrt is the bit-trick approximation by design; C11 owns it, the model's sqrt is IEEE).  The gain is powf
+    through a core intrinsic there: a case whose observation differs is re-checked against the model with ITS
+    OWN gains (data) and against the verdict; it is a violation only if that fails."""
+    ok, log, path = F.nostd_build("c19")
+    if not ok:
+        rep.violation("nostd_build", {"kind": "no_std-configured harness does not build (cargo +nightly)", "log": log[-3000:]}, no_input=True)
+        return {"nostd": "build failed"}
+    idx = [i for i, it in enumerate(items) if not (it["kind"] == "E" and it["det"] == 3)]
+    sub = [items[i] for i in idx]
+    rc, out2, err = F.run_bin_parallel(path, [it["line"] for it in sub])
+    if len(out2) != len(sub):
+        rep.violation("nostd_run", {"kind": "no_std-configured harness run incomplete", "log": err[-1500:]}, no_input=True)
+        return {"nostd": "run failed"}
+    diff = [j for j, (i, b) in enumerate(zip(idx, out2)) if outl[i] != b]
+    bad = []
+    if diff:
+        terms = [f"({sub[j]['coq']}, {F.zlistlist(F.norm_obs_line(out2[j]))})" for j in diff]
+        badm, cerrs = F.coq_check_cases("c19_nostd", HEADER, CHECK, terms)
+        for name, msg in cerrs:
+            rep.violation("nostd_model_error", {"kind": "model could not be evaluated on no_std observations", "log": msg}, no_input=True)
+        bad = [diff[k] for k in badm]
+        for j in diff:
+            it = sub[j]
+            obs = F.norm_obs_line(out2[j])
+            probs = rect_verdict(it, obs) if it["kind"] == "R" else env_verdict(it, obs, {})[0]
+            if probs and j not in bad:
+                bad.append(j)
+    for j in bad[:3]:
+        rep.violation(f"nostd_case{idx[j]}", {
+            "kind": "the crates built without their std feature disagree with the proved model (gains taken from the no_std run itself)",
+            "harness_line": sub[j]["line"], "std_observations": outl[idx[j]], "no_std_observations": out2[j],
+            "replay": "echo '<harness_line>' | harness_nightly_nostd/target/debug/c19"})
+    return {"nostd_cases": len(sub), "nostd_cases_differing_from_std_only_in_libm_gain": len(diff) - len(bad),
+            "nostd_violations": len(bad), "excluded": "RMS detector (no_std sqrt approximation, C11)"}
 
 
 def load_corpus():
@@ -412,7 +529,7 @@ def main(rep, tier, seed):
         rep.violation("floatbase_case", {"kind": "Base/Float.v disagrees with rustc", "case": case, "rustc": got}, no_input=True)
     corpus = load_corpus()
     rect = gen_rect(rng.fork("rect"), tier)
-    env = gen_env(rng.fork("env"), tier)
+    env = gen_env(rng.fork("env"), tier) + gen_exhaust(rng.fork("exhaust"), tier)
     # interleave cheap (rectifier) and expensive (envelope) cases so that the coqc shards are balanced
     mixed, ri, ei = [], 0, 0
     while ri < len(rect) or ei < len(env):
@@ -454,7 +571,11 @@ def main(rep, tier, seed):
                     probs.append(("panic_outside_known_class", k2))
             if probs:
                 verdict_bad.append((idx, probs))
-            if (flags.get("rising") and flags.get("falling")) or any(o[0] in ("a", "r") for o in it["ops"]) or 6 <= it["fmt"] < 12:
+            if flags.get("past_end"):
+                stats["histories_past_exhaustion"] = stats.get("histories_past_exhaustion", 0) + 1
+            if any(o[0] == "p" for o in it["ops"]):
+                stats["histories_with_into_parts"] = stats.get("histories_with_into_parts", 0) + 1
+            if (flags.get("rising") and flags.get("falling")) or flags.get("past_end") or any(o[0] in ("a", "r") for o in it["ops"]) or 6 <= it["fmt"] < 12:
                 nontriv.add(it["line"])
     # K2: listed -> KNOWN-FINDING line; not listed -> violation
     if k2_hits:
@@ -477,6 +598,8 @@ def main(rep, tier, seed):
         it = items[idx]
 
         def fails(c):
+            if not valid_ops(c):
+                return False
             o, b, e = F.correspond(binpath, [c], HEADER, CHECK, "c19_shrink")
             return bool(b) and not e
 
@@ -489,9 +612,16 @@ def main(rep, tier, seed):
             "case": {k: small[k] for k in CASE_KEYS if k in small}, "harness_line": small["line"],
             "implementation_observations": out, "model_observations": model[-3000:], "original_case_index": idx,
             "replay": "./check.py C19 --replay <this file>"})
+    # other build configurations: release profile (overflow panics legitimately differ: skipped) and the
+    # no_std-configured crates
+    if not errors and len(outl) == len(items):
+        rep.extra["build_profiles"] = F.profile_phase(rep, "c19", items, outl, profiles=("release",), skip=has_panic)
+        rep.extra["no_std_build"] = nostd_phase(rep, items, outl)
     dist = {"cases_histogram": hist, "rectifier_cases": len(rect), "envelope_histories": len(env), "corpus_cases": len(corpus),
             "rectifier_sample_evaluations": rect_evals, "envelope_channel_steps": stats.get("steps", 0),
             "zero_gain_steps": stats.get("zero_gain_steps", 0), "k2_class_inputs_panicking": len(k2_hits),
+            "adaptor_histories_pulled_past_exhaustion": stats.get("histories_past_exhaustion", 0),
+            "histories_with_into_parts": stats.get("histories_with_into_parts", 0),
             "steps_outside_exact_between_but_within_tolerance": stats.get("inexact_between", 0),
             "nonfinite_steps_skipped_by_verdict": stats.get("nonfinite", 0),
             "floatbase_cases": fb_n, "floatbase_disagreements": len(fb_bad)}
@@ -512,7 +642,7 @@ def finish(rep, info, n, nontriv, dist, samples, bad=(), ncases=0):
             "modelled, not verified: frames as lists, Frame::map/zip_map as list map, ring_buffer::Fixed::push as a queue (C06)"],
         "theorems": th, "axioms_reported": info.get("axioms", []),
         "evaluations": n, "cases": ncases, "distinct_nontrivial": nontriv,
-        "rule": "rectifier cases: 14 formats x {bare sample, 1, 2, 3 channels} x boundary (MIN, MIN+1, eq +-2^k +-1, MAX) + random values x 3 rectifiers; envelope: histories of rising/falling/constant/random/alternating segments, 4 detectors, f32/f64/i16/u8 (+ i8/u16) frames, Detector::next and the detect_envelope adaptor, setters mid-run. evaluations = rectified samples + envelope channel-steps. non-trivial = an envelope history in which both gain branches are taken (some step with detected > previous and some with detected < previous), or a setter is called mid-run, or the frame format is unsigned (equilibrium offset path)",
+        "rule": "rectifier cases: 14 formats x {bare sample, 1, 2, 3 channels} x boundary (MIN, MIN+1, eq +-2^k +-1, MAX) + random values x 3 rectifiers; envelope: histories of rising/falling/constant/random/alternating segments, 4 detectors, f32/f64/i16/u8 (+ i8/u16) frames, Detector::next and the detect_envelope adaptor, setters mid-run. evaluations = rectified samples + envelope channel-steps. adaptor histories over finite sources (from_iter, from_interleaved_samples_iter) pulled 8-24 frames past exhaustion with is_exhausted observed, then into_parts() and one more frame through the returned detector. non-trivial = an envelope history in which both gain branches are taken (some step with detected > previous and some with detected < previous), or a setter is called mid-run, or the adaptor is pulled past the end of its finite source, or the frame format is unsigned (equilibrium offset path)",
         "samples": samples, "input_distribution": dist, "disagreements": len(bad),
         "explanation": "theorems: rectifiers on every format; one-pole law, between, zero time, geometric monotone convergence, setters on the real-number instance; IEEE companion within two roundings. tie: the same Gallina definitions run by coqc against the crates bit for bit (gains passed as data), plus the exact-rational verdict with tolerance 2 ulp(max(|env|,|d|)) for float formats and 1 + 2^(bits-24) units for integer formats",
     }
